@@ -51,6 +51,8 @@ type Thread struct {
 	held      []*Mutex
 	vc        VC
 	stubHang  bool
+	lazy      bool   // parked at a lazy yield: schedulable at store-visible points, does not hold back the clock
+	lazyTm    *Timer
 	lib       bool // runs library code (spawned by a `go` in non-harness code)
 }
 
@@ -400,11 +402,25 @@ func (w *World) run() {
 			return
 		}
 		en := w.enabled()
-		if len(en) == 0 {
-			if !w.advanceTime() {
-				return
+		var lz []*Thread
+		for _, c := range w.threads {
+			if !c.done && c.lazy && c.ready != nil && !c.ready() {
+				lz = append(lz, c)
 			}
-			continue
+		}
+		if len(en) == 0 {
+			if len(lz) > 0 && len(w.liveTimers()) > 0 {
+				// quiescent instant: a lazily parked thread (API caller, environment) may act now, or time moves on
+				if d := w.decide(1+len(lz), "lazy-or-time"); d > 0 {
+					en = []*Thread{lz[d-1]}
+				}
+			}
+			if len(en) == 0 {
+				if !w.advanceTime() {
+					return
+				}
+				continue
+			}
 		}
 		var t *Thread
 		atYield := false
@@ -414,11 +430,21 @@ func (w *World) run() {
 			}
 		}
 		if atYield || w.schedFull {
-			t = en[w.decide(len(en), "sched")]
+			cand := en
+			if atYield && !(len(en) == 1 && en[0].lazy) {
+				cand = append(append([]*Thread(nil), en...), lz...)
+			}
+			t = cand[w.decide(len(cand), "sched")]
 		} else {
 			// no enabled thread is parked at a store-operation leg / callback boundary: run the woken
 			// threads in creation order (reduction R1: context switches are explored at yields only)
 			t = en[0]
+		}
+		if t.lazy {
+			t.lazy = false
+			if t.lazyTm != nil {
+				t.lazyTm.dead = true
+			}
 		}
 		t.ready = nil
 		t.waitCh, t.waitTm, t.waitMu = nil, nil, nil
